@@ -30,7 +30,8 @@ def gen_rule(g):
         if not c11.has_path_arg(t) and not c11.has_pathlike_literal(t):
             break
     cast = r.choice([[], [], ["int"], ["bool"]])
-    return {"parts": parts, "cond": t, "cast": cast}
+    # a rule given an empty cast mapping (`cast={}`) rather than none: it must come back equal as well
+    return {"parts": parts, "cond": t, "cast": cast, "empty_cast": (not cast) and r.random() < 0.15}
 
 
 def val_obs(s, doc):
@@ -42,7 +43,8 @@ def val_obs(s, doc):
 
 
 def make_case(rules, docs):
-    desc = {"rules": [{"parts": [terms.part_desc(p) for p in r["parts"]], "cond": c11.tree_py(r["cond"]), "cast": r["cast"]} for r in rules]}
+    desc = {"rules": [{"parts": [terms.part_desc(p) for p in r["parts"]], "cond": c11.tree_py(r["cond"]), "cast": r["cast"],
+                       "empty_cast": bool(r.get("empty_cast"))} for r in rules]}
     c = Case("schema_roundtrip", desc)
     rules_py = ", ".join(rc.rule_py(r) for r in rules)
     c.py = rc.PY_HEAD + (f"import json\ns = Schema([{rules_py}])\njs = s.to_json_like()\nprint(js)\n"
@@ -50,11 +52,16 @@ def make_case(rules, docs):
     built = enc.outcome(lambda: [rc.build_rule(r) for r in rules])
     if built[0] != "ok":
         return None
-    objs = built[1]
+    objs = [Rule(o.path, o.condition, cast={}) if r.get("empty_cast") else o for o, r in zip(built[1], rules)]
+    empty_cast = any(r.get("empty_cast") for r in rules)
+    if empty_cast:
+        c.py = c.py.replace("s = Schema(", "s = Schema(  # NOTE: rules flagged empty_cast in the case are built with cast={}\n    ")
     s = Schema(list(objs))
     js = enc.outcome(lambda: s.to_json_like())
-    c.ask(["schema_to_json", [enc.enc_rule(o) for o in s.rules]], ["ok", enc.enc_val(js[1])] if js[0] == "ok" else js,
-          "schema_to_json")
+    if not empty_cast:
+        # (the model has one representation for "no casts": `None` and `{}` are the same rule there)
+        c.ask(["schema_to_json", [enc.enc_rule(o) for o in s.rules]], ["ok", enc.enc_val(js[1])] if js[0] == "ok" else js,
+              "schema_to_json")
     if js[0] != "ok":
         # the path fragment C12 can serialise was generated: refusing is a violation here
         c.fail("serialises", f"Schema.to_json_like raised {js[1]}")
@@ -98,6 +105,23 @@ def make_case(rules, docs):
 def generate(rng, n, tier):
     g = Gen(rng, pct_strings=False, max_depth=3)
     cases = []
+    # casts outside the library's table of declared casts: `to_json_like` looks the function up without its
+    # from-type (K only: such a rule is not in the fragment the property is about)
+    from valida.casting import cast_string_to_bool
+    import valida.datapath as DPm
+    import valida.conditions as CC
+    for text, cast in [("{int: int}", {int: int}), ("{bool: cast_string_to_bool}", {bool: cast_string_to_bool}),
+                       ("{float: float}", {float: float})]:
+        c = Case("rule_to_json_cast", {"cast": text})
+        c.py = rc.PY_HEAD + f"print(Rule(DataPath('a'), Value.equal_to(1), cast={text}).to_json_like())"
+        r = Rule(DPm.DataPath("a"), CC.Value.equal_to(1), cast=cast)
+        o = enc.outcome(lambda: enc.enc_val(r.to_json_like()))
+        try:
+            c.ask(["rule_to_json", enc.enc_rule(r)], o, "rule_to_json")
+        except KeyError:
+            continue
+        c.features.add(("cast-lookup", text))
+        cases.append(c)
     while len(cases) < n:
         k = rng.choice([0, 1, 1, 2, 3, 4])
         rules = [gen_rule(g) for _ in range(k)]
